@@ -2,6 +2,8 @@ package rules
 
 import (
 	"go/ast"
+	"go/constant"
+	"strconv"
 	"strings"
 
 	"golang.org/x/tools/go/ssa"
@@ -265,6 +267,58 @@ func astFreshRule(R string) RuleFunc {
 			}
 			w := classify(d, 0)
 			c.Check(w == "", R, fn, c.P.Pos(d.Decl.Pos()), fn+" hands out a node built for the call", w+": its Children slice and Rules map are shared with every other caller and with the schema object")
+		}
+	}
+}
+
+// tokenAgreeRule: the OpenAPI converter's own type-name table covers the JSON kinds.
+func tokenAgreeRule(R string) RuleFunc {
+	return func(c *core.Ctx) {
+		c.Rule(R, "openapi/internal.TokenType - the table by which the items of an `or` rule are turned into AST nodes for the OpenAPI converter - answers for every JSON kind a schema type can name (string, boolean, integer, float, decimal, object, array, null), evaluated per name whatever the spelling (switch, table), and answers what SchemaType(name).ToTokenType() answers. A kind that is missing reaches `default: panic(ErrRuntimeFailure)`: the conversion of an accepted schema (`1.5 // {or: [\"float\", \"string\"]}`) panics")
+		c.Floor(R, 8)
+		d := c.P.FindDecl("openapi/internal.TokenType")
+		ref := c.P.FindDecl("(root.SchemaType).ToTokenType")
+		if d == nil || ref == nil || d.Decl.Type.Params == nil || len(d.Decl.Type.Params.List) != 1 || len(d.Decl.Type.Params.List[0].Names) != 1 {
+			c.Unresolved(R, "openapi/internal.TokenType / (root.SchemaType).ToTokenType")
+			return
+		}
+		param := d.Decl.Type.Params.List[0].Names[0].Name
+		tRef, why := core.DecodeSwitchFunc(ref.Pkg, ref.Decl)
+		if tRef == nil {
+			c.Bad(R, "decode", c.P.Pos(ref.Decl.Pos()), "SchemaType.ToTokenType", "undecided: "+why)
+			return
+		}
+		for _, name := range []string{"string", "boolean", "integer", "float", "decimal", "object", "array", "null"} {
+			e := &miniEval{pk: d.Pkg, env: map[string]int64{param: internString(strconv.Quote(name)), "nil": 0}, ctx: c}
+			e.hook = func(x ast.Expr) (int64, bool) {
+				// s[0] == '@': the first byte of the name
+				if ix, ok := x.(*ast.IndexExpr); ok && core.ExprStr(ix.X) == param {
+					return int64(name[0]), true
+				}
+				return 0, false
+			}
+			st, rets := e.run(d.Decl.Body.List)
+			key := "TokenType:" + name
+			pos := c.P.Pos(d.Decl.Pos())
+			want, _, _ := tRef.Get(constant.MakeString(name))
+			switch {
+			case e.unknown != "":
+				c.Bad(R, key, pos, "TokenType("+strconv.Quote(name)+")", "undecided: "+e.unknown)
+			case st == miniPanic:
+				c.Bad(R, key, pos, "TokenType("+strconv.Quote(name)+")", "panics: the JSON kind has no entry, the OpenAPI conversion of an accepted `or` rule that names it fails with Runtime Failure")
+			case st != miniReturn || len(rets) != 1:
+				c.Bad(R, key, pos, "TokenType("+strconv.Quote(name)+")", "undecided: no value returned")
+			default:
+				got := ""
+				if q, ok := uninternString(rets[0]); ok {
+					got, _ = strconv.Unquote(q)
+				}
+				w := ""
+				if want != nil {
+					w = constant.StringVal(want)
+				}
+				c.Check(got == w && w != "", R, key, pos, core.F("TokenType(%q) = %q", name, got), core.F("SchemaType(%q).ToTokenType() is %q: the two tables disagree", name, w))
+			}
 		}
 	}
 }
